@@ -232,6 +232,9 @@ func runC12(c c12Case, ev *Ev) error {
 		if wasAnswered {
 			for _, tx := range txs {
 				if tx.TS.After(ans.Add(resp)) {
+					if st := maxStall(ans.Add(-resp), tx.TS.Add(5*time.Millisecond)); st > 25*time.Millisecond {
+						return fmt.Errorf("DISCARD: the test process went unscheduled for %v while the agent had an answer to act on; the verdict would have been: request seq %d retransmitted %v after its answer was sent", st, seq, tx.TS.Sub(ans))
+					}
 					return fmt.Errorf("request seq %d was retransmitted %v after its answer was sent (resp_timeout %v)", seq, tx.TS.Sub(ans), resp)
 				}
 			}
@@ -308,6 +311,8 @@ func runC12(c c12Case, ev *Ev) error {
 		h.mu.Unlock()
 		if slow {
 			ev.Label("slow-answer-tolerated")
+		} else if st := maxStall(t0, time.Now()); st > 25*time.Millisecond {
+			return fmt.Errorf("DISCARD: the test process went unscheduled for %v during the case; the verdict would have been: peer declared dead although every request was answered", st)
 		} else {
 			return fmt.Errorf("every request was answered (rounds %+v), yet the peer was declared dead: modification of its session answered cause %d noresp=%v", c.Rounds, o.Cause, o.NoResp)
 		}
@@ -626,6 +631,9 @@ func runC12Init(c c12Init, ev *Ev) error {
 		}
 		for _, tx := range txs {
 			if tx.TS.After(answeredAt.Add(resp)) {
+				if st := maxStall(answeredAt.Add(-resp), tx.TS.Add(5*time.Millisecond)); st > 25*time.Millisecond {
+					return fmt.Errorf("DISCARD: the test process went unscheduled for %v while the agent had an answer to act on; the verdict would have been: Association Setup Request retransmitted %v after its answer", st, tx.TS.Sub(answeredAt))
+				}
 				return fmt.Errorf("Association Setup Request retransmitted %v after its answer", tx.TS.Sub(answeredAt))
 			}
 		}
